@@ -465,16 +465,15 @@ def live_flags(w: OrbitWorld) -> dict:
     return f
 
 
-def make_cfg(template: str, flags: dict, wd, name: str, extra_const: dict | None = None):
+def make_cfg(template: str, flags: dict, wd, name: str):
+    """Instantiate a static cfg template with the transcription variant of the working tree
+    (only the constants named in `flags` that occur in the template are rewritten)."""
     s = (CFG / template).read_text()
-    rep = {"DictMode": '"%s"' % flags["DictMode"], "TrajOnHit": str(flags["TrajOnHit"]).upper(),
-           "CorrKeyState": str(flags["CorrKeyState"]).upper(), "SaveOpts": str(flags["SaveOpts"]).upper(),
-           "LeftoverFix": str(flags["LeftoverFix"]).upper()}
-    rep.update(extra_const or {})
-    for k, v in rep.items():
-        s, n = re.subn(rf"^(\s*{k}\s*=\s*).*$", lambda mm: mm.group(1) + str(v), s, flags=re.M)
-        if n != 1:
-            raise MachineryError(f"cfg template {template}: constant {k} not found")
+    for k, v in flags.items():
+        v = ('"%s"' % v) if isinstance(v, str) else str(v).upper()
+        s, n = re.subn(rf"^(\s*{k}\s*=\s*).*$", lambda mm: mm.group(1) + v, s, flags=re.M)
+        if n > 1:
+            raise MachineryError(f"cfg template {template}: constant {k} occurs {n} times")
     p = wd / name
     p.write_text(s)
     return p
@@ -510,7 +509,7 @@ def part_orbit(ck: Check, fx: Fx, rec: CacheRecorder, dictmode: str, rnd: random
     dbg("repaired done")
     # (b) the transcription of the working tree: structural invariants + emission of histories
     cfg = make_cfg(f"OrbitObject.asis.{ck.tier}.cfg", flags, wd, "OrbitObject.live.cfg")
-    r = tlc(OBJ / "MCOrbitObject.tla", cfg, timeout=1500, workers=8)
+    r = tlc(OBJ / "MCOrbitObject.tla", cfg, timeout=1500, workers=1)      # 1 worker: reproducible choice of histories
     ck.model(f"OrbitObject.live.{ck.tier}", r)
     hists = [h for h in r.printed() if isinstance(h, list)]
     n_states = len(hists)
@@ -521,7 +520,7 @@ def part_orbit(ck: Check, fx: Fx, rec: CacheRecorder, dictmode: str, rnd: random
     r = tlc(OBJ / "MCOrbitObject.tla", CFG / f"OrbitObject.repaired.deep{ck.tier}.cfg", timeout=1500)
     ck.model(f"OrbitObject.repaired.deep{ck.tier}", r)
     cfgd = make_cfg(f"OrbitObject.asis.deep{ck.tier}.cfg", flags, wd, "OrbitObject.livedeep.cfg")
-    r = tlc(OBJ / "MCOrbitObject.tla", cfgd, timeout=1500, workers=8)
+    r = tlc(OBJ / "MCOrbitObject.tla", cfgd, timeout=1500, workers=1)
     ck.model(f"OrbitObject.live.deep{ck.tier}", r)
     deep = drop_prefixes([h for h in r.printed() if isinstance(h, list)])
     model_stale += sum(1 for h in deep if h and h[-1]["stale"])
@@ -534,8 +533,8 @@ def part_orbit(ck: Check, fx: Fx, rec: CacheRecorder, dictmode: str, rnd: random
     dbg("req done")
     # (d) long random walks
     cfgs = make_cfg("OrbitObject.asis.sim.cfg", flags, wd, "OrbitObject.livesim.cfg")
-    nwalks = 40 if ck.quick else 400          # per simulation worker (4 workers)
-    rs = tlc(OBJ / "MCOrbitObject.tla", cfgs, simulate=f"num={nwalks}", depth=31, seed=ck.seed, workers=4, timeout=900)
+    nwalks = 120 if ck.quick else 1500
+    rs = tlc(OBJ / "MCOrbitObject.tla", cfgs, simulate=f"num={nwalks}", depth=31, seed=ck.seed, workers=1, timeout=900)
     if rs.error:
         raise MachineryError(f"simulation failed: {rs.error}\n{rs.out[-2000:]}")
     walks = [h for h in rs.printed() if isinstance(h, list) and len(h) == 30]
@@ -543,9 +542,9 @@ def part_orbit(ck: Check, fx: Fx, rec: CacheRecorder, dictmode: str, rnd: random
         raise MachineryError(f"simulation produced only {len(walks)} walks")
 
     dbg("sim done")
-    budget = 2500 if ck.quick else 10 ** 9
-    if len(hists) > budget:
-        hists = rnd.sample(hists, budget)
+    if ck.quick:
+        hists = rnd.sample(hists, min(len(hists), 1000))
+        deep = rnd.sample(deep, min(len(deep), 300))
     jobs = [("lyapunov", h) for h in hists] + [("lyapunov", h) for h in deep] + [("lyapunov", h) for h in walks]
     if "halo" in worlds:
         sub = rnd.sample(hists, min(len(hists), 3000))
@@ -646,6 +645,373 @@ def replay_orbit(fx, rec, data) -> bool:
 
 
 # ======================================================================================
+# 4. manifold / system / libration point / centre manifold: same oracle, smaller worlds
+# ======================================================================================
+
+class SmallWorld:
+    """Common replay loop: real object(s) in a holder, twin step on freshly built objects."""
+    name = "?"
+
+    def __init__(self, fx, rec, wd):
+        self.fx, self.rec, self.wd = fx, rec, wd
+        self.memo = {}
+        self.n_files = 0
+        self.twin_evals = 0
+
+    # to be provided: new_real() -> holder; fresh(L) -> holder; do(h, op, arg) -> outcome;
+    # observe(h) -> tuple; step_logical(L, op, arg, out) -> L'; cache_of(h) -> cache service; L0; diagnose(...)
+    def twin_step(self, L, op, arg, memo=True):
+        k = (L, op, tuple(arg))
+        if memo and k in self.memo:
+            return self.memo[k]
+        h = self.fresh(L)
+        out = self.do(h, op, arg)
+        self.twin_evals += 1
+        res = (out, self.step_logical(L, op, arg, out), self.observe(h))
+        if memo:
+            self.memo[k] = res
+        return res
+
+    def top_hit(self, h_before_caches, entries):
+        for e in entries:
+            if e["e"] == "goc" and e["depth"] == 0 and e["cache"] in h_before_caches:
+                return "H" if e["hit"] else "M"
+        return "-"
+
+    def replay(self, hist, init=None):
+        h = self.new_real(init)
+        L = self.L0(init)
+        events, problems = [], []
+        diverged = None
+        for k, st in enumerate(hist):
+            op, arg = st["op"], list(st["arg"])
+            caches = {id(c) for c in self.caches_of(h)}
+            m = self.rec.mark()
+            out_r = self.do(h, op, arg)
+            hit = self.top_hit(caches, self.rec.since(m))
+            obs_r = self.observe(h)
+            out_t, L2, obs_t = self.twin_step(L, op, arg)
+            fresh, post = out_r == out_t, obs_r == obs_t
+            events.append({"op": op, "arg": arg, "hit": hit, "fresh": fresh, "post": post})
+            if not fresh or not post:
+                # a step taken while the object already differs from its logical state inherits the cause
+                key = diverged if (diverged and (fresh or op.startswith("Read"))) else \
+                    self.diagnose(op, arg, hit, fresh, post, L, hist[:k + 1])
+                problems.append({"key": key, "step": k, "op": op, "arg": arg, "real": list(out_r), "twin": list(out_t),
+                                 "real_state": list(obs_r), "twin_state": list(obs_t), "hit": hit})
+                if not post:
+                    diverged = diverged or key
+            if post:
+                diverged = None
+            L = L2
+        return events, problems
+
+
+class ManifoldWorld(SmallWorld):
+    name = "manifold"
+    NSTM = {"n1": 300, "n2": 400}
+    PAR = {"cA": 1e-6, "cB": 1e-5}
+
+    def __init__(self, fx, rec, wd):
+        super().__init__(fx, rec, wd)
+        o = fx.new_orbit("lyapunov")
+        o.correct()
+        self.cls = type(o)
+        self.x = np.array(o.initial_state, dtype=float)
+        T = float(o.period)
+        self.per = {"T": T, "P1": 1.25 * T, "P2": 1.5 * T}     # arcs on which the unstable direction stays real
+        self.pername = {v: k for k, v in self.per.items()}
+
+    def L0(self, init):
+        return ("T", None)
+
+    def _pair(self, per):
+        o = self.cls(self.fx.L1, initial_state=self.x.copy())
+        o.period = self.per[per]
+        return {"orbit": o, "m": o.manifold(stable=False, direction="positive")}
+
+    def new_real(self, init=None):
+        return self._pair("T")
+
+    def fresh(self, L):
+        return self._pair(L[0])
+
+    def result_at(self, lastC):
+        """What manifold.result must hold: the outcome of compute(c) on a fresh manifold of the orbit as it
+        was when compute(c) was called."""
+        if lastC is None:
+            return None
+        if not hasattr(self, "res_memo"):
+            self.res_memo = {}
+        if lastC not in self.res_memo:
+            h = self._pair(lastC[1])
+            self.res_memo[lastC] = self.do(h, "Compute", [lastC[0]])
+        out = self.res_memo[lastC]
+        return out[1] if out[0] == "val" else None
+
+    def twin_step(self, L, op, arg, memo=True):
+        # the twin is built WITHOUT history (no compute() on it): manifold.result is taken from result_at
+        if op == "ReadResult":
+            r = self.result_at(L[1])
+            return (("none",) if r is None else ("val", r)), L, (L[0], r)
+        out, L2, obs = super().twin_step(L, op, arg, memo)
+        return out, L2, (obs[0], self.result_at(L2[1]))
+
+    def caches_of(self, h):
+        return [h["m"].dynamics._cache]
+
+    def do(self, h, op, arg):
+        m = h["m"]
+        try:
+            if op == "OrbitSetPeriod":
+                h["orbit"].period = self.per[arg[0]]
+                return ("none",)
+            if op == "ComputeStm":
+                return ("val", stamp(tuple(np.asarray(x) for x in m.dynamics.compute_stm(steps=self.NSTM[arg[0]]))))
+            if op == "Compute":
+                r = m.compute(step=0.5, integration_fraction=0.05, dt=1e-2, method="fixed", order=4,
+                              displacement=self.PAR[arg[0]], show_progress=False)
+                return ("val", stamp((list(r[2]), list(r[3]), int(r[4]), int(r[5]))))
+            if op == "ReadResult":
+                r = m.result
+                return ("none",) if r is None else ("val", stamp((list(r[2]), list(r[3]), int(r[4]), int(r[5]))))
+            if op == "ReadEigenvalues":
+                return ("val", stamp(tuple(np.asarray(x) for x in m.dynamics.eigenvalues)))
+            if op == "NewManifold":
+                h["m"] = h["orbit"].manifold(stable=False, direction="positive")
+                return ("none",)
+            if op == "SaveLoad":
+                self.n_files += 1
+                p = self.wd / f"manifold{self.n_files}.pkl"
+                m.save(p)
+                h["m"] = type(m).load(p)
+                h["orbit"] = h["m"].generating_orbit
+                return ("none",)
+        except Exception as ex:  # noqa
+            return ("raise", type(ex).__name__)
+        raise MachineryError(op)
+
+    def observe(self, h):
+        r = h["m"].result
+        return (self.pername.get(h["orbit"].period, h["orbit"].period),
+                None if r is None else stamp((list(r[2]), list(r[3]), int(r[4]), int(r[5]))))
+
+    def step_logical(self, L, op, arg, out):
+        per, lastC = L
+        if op == "OrbitSetPeriod":
+            return (arg[0], lastC)
+        if op == "Compute" and out[0] == "val":
+            return (per, (arg[0], per))
+        if op == "NewManifold":
+            return (per, None)
+        return L
+
+    def diagnose(self, op, arg, hit, fresh, post, L, prefix):
+        if op == "Compute" and fresh and hit == "H":
+            return "manifold.compute|_manifold_result-not-updated-on-cache-hit"
+        if op == "Compute":      # served from the cache, or recomputed from a cached STM / stability of the old orbit
+            return "manifold.compute|stale-after-orbit-change"
+        if op == "ComputeStm" and hit == "H":
+            return "manifold.compute_stm|stale-after-orbit-change"
+        if op == "ReadEigenvalues":
+            return "manifold.stability|stale-after-orbit-change"
+        if op == "SaveLoad":
+            return "manifold.save-load|state-not-preserved"
+        return f"manifold.{op}|differs-from-fresh-twin"
+
+
+class SystemWorld(SmallWorld):
+    name = "system"
+    TF = {"t1": 0.5, "t2": 0.8}
+    ST = {"s1": 20, "s2": 30}
+    KW = {"none": None, "1": {"rtol": 1e-6}, "2": {"rtol": 1e-12}}
+    DELTA = {"1": 1e-6, "2": 0.5}
+
+    def __init__(self, fx, rec, wd):
+        super().__init__(fx, rec, wd)
+        self.state0 = [float(v) for v in fx.new_orbit("halo").initial_state]
+
+    def L0(self, init):
+        return ()
+
+    def new_real(self, init=None):
+        from hiten.system.base import System
+        s = System.from_bodies("earth", "moon")
+        return {"sys": s, "pt": s.get_libration_point(3)}
+
+    def fresh(self, L):
+        return self.new_real()
+
+    def caches_of(self, h):
+        return [h["sys"].dynamics._cache, h["pt"].dynamics._cache]
+
+    def do(self, h, op, arg):
+        try:
+            if op == "Propagate":
+                tr = h["sys"].dynamics.propagate(list(self.state0), tf=self.TF[arg[0]], steps=self.ST[arg[1]],
+                                                 method="adaptive", order=8, forward=1, extra_kwargs=self.KW[arg[2]])
+                return ("val", stamp(tr))
+            if op == "ComputeStability":
+                from hiten.algorithms.linalg.options import EigenDecompositionOptions
+                r = h["pt"].dynamics.compute_stability(EigenDecompositionOptions(delta=self.DELTA[arg[0]], tol=1e-6))
+                return ("val", stamp(tuple(np.asarray(x) for x in r.eigenvalues)))
+        except Exception as ex:  # noqa
+            return ("raise", type(ex).__name__)
+        raise MachineryError(op)
+
+    def observe(self, h):
+        return ()
+
+    def step_logical(self, L, op, arg, out):
+        return L
+
+    def diagnose(self, op, arg, hit, fresh, post, L, prefix):
+        if op == "Propagate" and hit == "H":
+            same = [s for s in prefix[:-1] if s["op"] == "Propagate" and list(s["arg"])[:2] == arg[:2]
+                    and list(s["arg"])[2] != arg[2] and "none" not in (list(s["arg"])[2], arg[2])]
+            if same:
+                return "make_key|dict-values-ignored:system.propagate"
+            return "system.propagate|stale-cache-entry"
+        if op == "ComputeStability" and hit == "H":
+            return "libration.compute_stability|cached-pipeline-aliased-across-options"
+        return f"system.{op}|differs-from-fresh-twin"
+
+
+class CMWorld(SmallWorld):
+    name = "cm"
+    DEG = {"dA": 2, "dB": 3}
+    PT = np.array([0.01, 0.0, 0.005, 0.0])
+    CHEAP = {"SetDegree", "ReadDegree", "PointGetDegree"}
+
+    def L0(self, init):
+        return (init,)
+
+    def _point(self):
+        # a private libration point per history: the point caches the CM objects it hands out
+        from hiten.system.base import System
+        return System.from_bodies("earth", "moon").get_libration_point(1)
+
+    def new_real(self, init):
+        pt = self._point()
+        return {"pt": pt, "cm": pt.get_center_manifold(self.DEG[init])}
+
+    def fresh(self, L):
+        return self.new_real(L[0])
+
+    def caches_of(self, h):
+        return [h["cm"].dynamics._cache, h["pt"].dynamics._cache]
+
+    def do(self, h, op, arg):
+        cm = h["cm"]
+        try:
+            if op == "SetDegree":
+                cm.degree = self.DEG[arg[0]]
+                return ("none",)
+            if op == "ReadDegree":
+                return ("val", stamp(int(cm.degree)))
+            if op == "PointGetDegree":
+                return ("val", stamp(int(h["pt"].get_center_manifold(self.DEG[arg[0]]).degree)))
+            if op == "Hamiltonian":
+                H = cm.hamiltonian(self.DEG[arg[0]])
+                return ("val", stamp((int(H.degree), [np.asarray(b) for b in H.poly_H])))
+            if op == "ToSynodic":
+                return ("val", stamp(np.asarray(cm.to_synodic(self.PT))))
+            if op == "SaveLoad":
+                self.n_files += 1
+                p = self.wd / f"cm{self.n_files}.pkl"
+                cm.save(p)
+                h["cm"] = type(cm).load(p)
+                return ("none",)
+        except Exception as ex:  # noqa
+            return ("raise", type(ex).__name__)
+        raise MachineryError(op)
+
+    def observe(self, h):
+        return (int(h["cm"].degree),)
+
+    def step_logical(self, L, op, arg, out):
+        return (arg[0],) if op == "SetDegree" else L
+
+    def diagnose(self, op, arg, hit, fresh, post, L, prefix):
+        if op == "Hamiltonian" and fresh and hit == "H":
+            return "cm.hamiltonian|degree-side-effect-skipped-on-cache-hit"
+        if op == "Hamiltonian" and fresh:
+            return "cm.hamiltonian|changes-degree-of-the-object"
+        if op == "PointGetDegree":
+            return "libration.center_manifold|cached-object-degree-mutated"
+        if op == "SaveLoad":
+            return "cm.save-load|state-not-preserved"
+        return f"cm.{op}|differs-from-fresh-twin"
+
+    def twin_step(self, L, op, arg, memo=True):
+        # requirement-level meaning of cm.hamiltonian(d): returns H(d); the object's degree is what the
+        # user set.  (On a fresh object the library moves the degree to d; whether that side effect is
+        # intended is reported separately, see diagnose.)
+        out, L2, obs = super().twin_step(L, op, arg, memo)
+        if op == "Hamiltonian":
+            obs = (self.DEG[L[0]],)
+        return out, L2, obs
+
+
+def part_small(ck: Check, world: SmallWorld, mcspec: str, cfg_live: str, cfg_repaired: str, rnd, *,
+               budget: int, keep=None, flags=None, wd=None):
+    r = tlc(OBJ / mcspec, CFG / cfg_repaired, timeout=900, workers=8)
+    ck.model(cfg_repaired[:-4], r)
+    cfg = make_cfg(cfg_live, flags or {}, wd, cfg_live)
+    r = tlc(OBJ / mcspec, cfg, timeout=900, workers=1)
+    ck.model(cfg_live[:-4] + ".live", r)
+    hists = drop_prefixes([h for h in r.printed() if isinstance(h, list)])
+    if keep:
+        hists = [h for h in hists if keep(h)]
+    total = len(hists)
+    if len(hists) > budget:
+        hists = rnd.sample(hists, budget)
+    viol, n_stale_model, n_bad, mism = {}, 0, 0, 0
+    t0 = time.time()
+    for h in hists:
+        init = h[0].get("deg0") if h else None
+        events, problems = world.replay(h, init)
+        world.rec.clear()
+        ck.count((world.name, json.dumps([[s["op"], s["arg"]] for s in h])), len(h) >= 3)
+        for e, s in zip(events, h):
+            n_stale_model += bool(s["stale"])
+            n_bad += not e["fresh"]
+            if s["hit"] != e["hit"] or (s["stale"] != (not e["fresh"])):
+                mism += 1
+                if mism <= 6:
+                    dbg(world.name, "prediction mismatch", [[x["op"], x["arg"]] for x in h], "at", e, "model", s)
+        for p in problems:
+            viol.setdefault(p["key"], (h[: p["step"] + 1], p, init))
+    ck.part(world.name + "_replay", histories=len(hists), of=total, steps=sum(len(h) for h in hists),
+            model_stale_steps=n_stale_model, real_stale_steps=n_bad, prediction_mismatches=mism,
+            twin_evaluations=world.twin_evals, wall_s=round(time.time() - t0, 1))
+    if mism:
+        ck.notes.append(f"{world.name}: {mism} step(s) where the transcription's prediction (hit/miss, stale/fresh) "
+                        f"differs from the code")
+    for key, (h, p, init) in list(viol.items())[:MAX_REPORT]:
+        ck.violation(key, f"{world.name}, history {[s['op'] + ('(' + ','.join(s['arg']) + ')' if s['arg'] else '') for s in h]}"
+                          f"{' from degree ' + str(init) if init else ''}: step {p['step']} {p['op']} returned {p['real']} / "
+                          f"state {p['real_state']}; freshly constructed objects in the same logical state give "
+                          f"{p['twin']} / state {p['twin_state']}",
+                     {"object": world.name, "history": [[s["op"], s["arg"]] for s in h], "init": init, "problem": p})
+    keys = list(world.memo)
+    nondet = sum(1 for k in rnd.sample(keys, min(len(keys), 10))
+                 if SmallWorld.twin_step(world, k[0], k[1], list(k[2]), memo=False) != world.memo[k])
+    if nondet:
+        raise MachineryError(f"{world.name}: twin oracle is not deterministic")
+
+
+WORLDS = {"manifold": ManifoldWorld, "system": SystemWorld, "cm": CMWorld}
+
+
+def replay_small(fx, rec, data) -> bool:
+    w = WORLDS[data["object"]](fx, rec, workdir("c20r"))
+    events, problems = w.replay([{"op": o, "arg": a} for o, a in data["history"]], data.get("init"))
+    print(json.dumps({"events": events, "problems": problems}, indent=1, default=str))
+    return bool(problems)
+
+
+# ======================================================================================
 # main
 # ======================================================================================
 
@@ -668,7 +1034,21 @@ def main(tier=None, replay=None):
     dictmode = part_make_key(ck)
     fx = Fx()
     with MemoDynsys(), CacheRecorder() as rec:
-        part_orbit(ck, fx, rec, dictmode, rnd)
+        flags = part_orbit(ck, fx, rec, dictmode, rnd)
+        dbg("orbit done")
+        dm = {"DictMode": flags["DictMode"]}
+        wd = workdir("c20s")
+        q = ck.quick
+        part_small(ck, ManifoldWorld(fx, rec, wd), "MCManifoldObject.tla", f"ManifoldObject.asis.{ck.tier}.cfg",
+                   "ManifoldObject.repaired.cfg", rnd, budget=250 if q else 4000, flags=dm, wd=wd)
+        dbg("manifold done")
+        part_small(ck, SystemWorld(fx, rec, wd), "MCSystemObject.tla", f"SystemObject.asis.{ck.tier}.cfg",
+                   "SystemObject.repaired.cfg", rnd, budget=400 if q else 2000, flags=dm, wd=wd)
+        dbg("system done")
+        part_small(ck, CMWorld(fx, rec, wd), "MCCMObject.tla", "CMObject.asis.cfg", "CMObject.repaired.cfg", rnd,
+                   budget=300 if q else 1000, flags=dm, wd=wd,
+                   keep=(lambda h: all(s["op"] in CMWorld.CHEAP for s in h)) if q else None)
+        dbg("cm done")
 
     ck.cov["rule"] = ("histories = one shortest history per distinct state of the TLC model of the working tree "
                       "(VIEW without the history variable; the state contains the last operation and its outcome) "
@@ -688,7 +1068,7 @@ def main(tier=None, replay=None):
     return ck.finish()
 
 
-REPLAYERS = {"orbit": replay_orbit}
+REPLAYERS = {"orbit": replay_orbit, "manifold": replay_small, "system": replay_small, "cm": replay_small}
 
 if __name__ == "__main__":
     sys.exit(main())
